@@ -50,16 +50,17 @@ struct Jar : cppcms::session_interface_cookie_adapter {
 // ---------------------------------------------------------------- storage spy: which ids reach the storage
 // fault budget of the storage operation in progress (network storage): the client retries once, so an operation may meet at most one connection reset -
 // one that was injected while the connection was idle and is noticed now counts just as one injected while the operation runs
-int g_op_depth = 0, g_op_budget = 0;
+int g_op_depth = 0, g_op_budget = 0; bool g_op_mutating = false;   // g_op_mutating: inside save()/remove() - a reset behind a (partly) sent request of those would let the server execute it twice, the first copy later (at-least-once)
 struct OpScope { OpScope(){ if(g_op_depth++ == 0) g_op_budget = simk::unconsumed_resets() ? 0 : 1; } ~OpScope(){ g_op_depth--; } };
-bool may_inject_reset(){ if(simk::unconsumed_resets()) return false; if(g_op_depth > 0){ if(g_op_budget <= 0) return false; g_op_budget = 0; } return true; }
+bool may_inject_reset(){ if(simk::unconsumed_resets()) return false; if(g_op_depth > 0 && g_op_mutating) return false; if(g_op_depth > 0){ if(g_op_budget <= 0) return false; g_op_budget = 0; } return true; }
 struct SpyStorage : cppcms::sessions::session_storage {
 	booster::shared_ptr<cppcms::sessions::session_storage> inner; std::vector<std::string> *bad; std::set<std::string> *live; uint64_t *calls;
 	static bool wellformed(const std::string &s){ if(s.size() != 32) return false; for(char c:s) if(!((c >= '0' && c <= '9') || (c >= 'a' && c <= 'f'))) return false; return true; }
 	void note(const std::string &sid){ simk::TsanIgnore ign; (*calls)++; if(!wellformed(sid)) bad->push_back(sid); }
-	void save(std::string const &sid,time_t timeout,std::string const &in) override { OpScope os; note(sid); inner->save(sid,timeout,in); simk::TsanIgnore ign; live->insert(sid); }
+	struct Mut { Mut(){ g_op_mutating = true; } ~Mut(){ g_op_mutating = false; } };
+	void save(std::string const &sid,time_t timeout,std::string const &in) override { OpScope os; Mut mu; note(sid); inner->save(sid,timeout,in); simk::TsanIgnore ign; live->insert(sid); }
 	bool load(std::string const &sid,time_t &timeout,std::string &out) override { OpScope os; note(sid); return inner->load(sid,timeout,out); }
-	void remove(std::string const &sid) override { OpScope os; note(sid); inner->remove(sid); simk::TsanIgnore ign; live->erase(sid); }
+	void remove(std::string const &sid) override { OpScope os; Mut mu; note(sid); inner->remove(sid); simk::TsanIgnore ign; live->erase(sid); }
 	bool is_blocking() override { return inner->is_blocking(); }
 };
 struct SpyFactory : cppcms::sessions::session_storage_factory {
